@@ -122,6 +122,21 @@ def oracle(case):
     cg2, fine2 = sut(r2.resolve_all)
     check_molecule(fine2, model_g, 'from_graph with virtual nodes')
     check_membership(cg2, fine2, ref_counts, r2.fragment_dicts[0], 'from_graph (node order %r): ' % [n for n, _ in case['base_nodes']])
+    # the same base-graph object used before with a fragment set that DOES define the virtual names
+    meta3 = nx.Graph()
+    for n, name in case['base_nodes']:
+        meta3.add_node(n, fragname=name)
+    for a, b, o in case['base_edges']:
+        meta3.add_edge(a, b, order=o)
+    defined = case['frag_block'][:-1] + ',#V=[$]O,#W=[$]N}'
+    sut(lambda: MoleculeResolver.from_graph(defined, meta3).resolve_all())
+    for n in meta3.nodes:
+        # the resolver renames fragname/atomname of the graph it was given; hand over the names again
+        meta3.nodes[n]['fragname'] = [nm for k, nm in case['base_nodes'] if k == n][0]
+    r3 = sut(lambda: MoleculeResolver.from_graph(case['frag_block'], meta3))
+    cg3, fine3 = sut(r3.resolve_all)
+    check_molecule(fine3, model_g, 'from_graph on a base graph object that was resolved before')
+    check_membership(cg3, fine3, ref_counts, r3.fragment_dicts[0], 'from_graph on a reused base graph object: ')
     try:
         sut(resolve, case['bad'])
     except SutError as e:
